@@ -87,15 +87,21 @@ def run(tier, seed, replay=None):
         # (2) clean run of all scenarios: counts the filesystem operations
         base_conns = [{"id": i + 1, "reqs": reqs} for i, (sname, reqs) in enumerate(SESSIONS.items())]
         clean = world("clean", copy.deepcopy(base_conns))
+        clean["logOps"] = True
         lines, crash = srv.run_script(ctx, [clean], "clean")
         if crash:
             raise common.CheckError("clean scenario run crashed: " + crash[-800:])
-        nops = sum(l.get("fsops", 0) for l in lines if l.get("ev") == "Req") + 64
+        fsops = [o for l in lines if l.get("ev") == "FsOps" for o in l["ops"]]
+        nops = (max(o["seq"] for o in fsops) + 1 if fsops else 0) + 8
         worlds.append(clean)
         # (3) a fault (error, then short read/write) at every single operation index; random pairs
         ks = list(range(nops))
         if not full:
-            ks = sorted(rng.sample(ks, min(len(ks), 70)))
+            # one index for every distinct (operation, path) of the clean run, plus random ones
+            first = {}
+            for o in fsops:
+                first.setdefault((o["op"], o["path"]), o["seq"])
+            ks = sorted(set(first.values()) | set(rng.sample(ks, min(len(ks), 30))))
         for k in ks:
             worlds.append(world("err@%d" % k, copy.deepcopy(base_conns), faults={str(k): "err"}))
             worlds.append(world("short@%d" % k, copy.deepcopy(base_conns), faults={str(k): "short"}))
